@@ -880,7 +880,9 @@ def run_bad_production_rates(ctx, G):
 
 def wholerun_oracle(ctx, G, cfg, seeds, n_saved, scen, start, ndays):
     inp0 = {"kind": "wholerun-case", "cfg": cfg}
-    if n_saved != cfg["n_sims"] or len(seeds) < n_saved:
+    # the saved count only grows: a folder used before by a run with MORE simulations keeps the larger count and
+    # the extra seeds / scenario files (history shape "n-sims"); what this run needs is one per simulation it runs
+    if n_saved < cfg["n_sims"] or len(seeds) < cfg["n_sims"]:
         ctx.violate("C16:wholerun:folder-shape", "generator folder does not hold one seed and one scenario per simulation",
                     dict(inp0, n_saved=n_saved, seeds=seeds))
     for i, rows in scen.items():
